@@ -48,16 +48,20 @@ PROPS = {
     "C03": dict(theorems=["Props/C03.v"], parts=[
         dict(kind="macro", profile="C03", preds="once,pure", quick=400, thorough=10000)]),
     "C04": dict(theorems=["Props/C04.v"], parts=[
-        dict(kind="core", profile="C04", mask="keys,qset", preds="c04,wf", quick=Q, thorough=T)]),
+        dict(kind="core", profile="C04", mask="keys,qset", preds="c04,wf", quick=Q, thorough=T),
+        dict(kind="macro", profile="C04", preds="limit", quick=300, thorough=8000)]),
     "C05": dict(theorems=["Props/C05.v", "parts/memest/coq|CLM|Props_C05_memest.v"], parts=[
         dict(kind="core", profile="C05", mask="keys,qset,size", preds="c05,wf", quick=Q, thorough=T),
         dict(kind="ext", name="memest", quick=1500, thorough=30000, env={"MEMEST_TARGET": BUILD + "/target"})]),
     "C06": dict(theorems=["Props/C06.v"], parts=[
-        dict(kind="core", profile="C06", mask="out,keys,qset,born,stats", preds="c06", quick=Q, thorough=T)]),
+        dict(kind="core", profile="C06", mask="out,keys,qset,born,stats", preds="c06", quick=Q, thorough=T),
+        dict(kind="macro", profile="C06", preds="ttl", quick=300, thorough=8000)]),
     "C07": dict(theorems=["Props/C07.v"], parts=[
-        dict(kind="core", profile="C07", mask="keys,queue", preds="c07", quick=Q, thorough=T)]),
+        dict(kind="core", profile="C07", mask="keys,queue", preds="c07", quick=Q, thorough=T),
+        dict(kind="macro", profile="C07", preds="order", quick=300, thorough=8000)]),
     "C08": dict(theorems=["Props/C08.v"], parts=[
-        dict(kind="core", profile="C08", mask="keys,queue,freq", preds="c08", quick=Q, thorough=T)]),
+        dict(kind="core", profile="C08", mask="keys,queue,freq", preds="c08", quick=Q, thorough=T),
+        dict(kind="macro", profile="C08", preds="", quick=300, thorough=8000)]),
     "C09": dict(theorems=["Props/C09.v"], parts=[
         dict(kind="macro", profile="C09", preds="err", quick=400, thorough=10000)]),
     "C10": dict(theorems=["Props/C10.v"], parts=[
@@ -221,7 +225,7 @@ def build_harness(run, crate):
 def split_cases(text):
     cases, cur = [], []
     for line in text.splitlines():
-        if line.startswith("CASE"):
+        if line.startswith("CASE") or line.startswith("RTCASE"):
             cur = [line]
         elif line.startswith("END"):
             cur.append(line)
@@ -272,6 +276,8 @@ def case_failing(case_lines, mask, preds, want, tag):
 
 def shrink_case(case_lines, mask, preds, want, tag):
     head, ops, end = case_lines[0], case_lines[1:-1], case_lines[-1]
+    if head.startswith("RTCASE"):
+        return case_lines        # real-time cases take seconds to run and are already minimal
     changed = True
     rounds = 0
     while changed and rounds < 6:
